@@ -198,6 +198,7 @@ func mapSeq[T any](s iter.Seq2[T, error], key func(T) string) iter.Seq2[string, 
 			k := ""
 			if err == nil || !isNilish(v) {
 				k = key(v)
+				scribble(v)
 			}
 			if !yield(k, err) {
 				return
@@ -264,4 +265,89 @@ func collect(s iter.Seq2[string, error], maxItems int) (tr []item, overflow bool
 		tr = append(tr, item{Key: k, Err: err != nil})
 	}
 	return tr, false
+}
+
+// scribble overwrites everything reachable from a yielded record, right after
+// its canonical key has been taken: byte slices up to their capacity, maps get
+// a foreign entry, trees are renamed and their child lists cleared. A yielded
+// record is the caller's; if the reader (or another record, or a later decode)
+// still shares memory with it, the damage shows up in what is observed next.
+func scribble(v any) {
+	fill := func(b []byte) {
+		b = b[:cap(b)]
+		for i := range b {
+			b[i] = '#'
+		}
+	}
+	fillInts := func(x []int) {
+		x = x[:cap(x)]
+		for i := range x {
+			x[i] = -7777
+		}
+	}
+	var samRec func(x *sam.SAM)
+	samRec = func(x *sam.SAM) {
+		if x == nil {
+			return
+		}
+		for _, val := range x.Tags {
+			if b, ok := val.([]byte); ok {
+				fill(b)
+			}
+		}
+		if x.Tags != nil {
+			for name := range x.Tags {
+				x.Tags[name] = "#scribbled"
+			}
+			x.Tags["zz"] = "#scribbled"
+		}
+		x.Qname, x.Rname, x.Cigar, x.Rnext, x.Seq, x.Qual = "#", "#", "#", "#", "#", "#"
+		x.Flag, x.Pos, x.Mapq, x.Pnext, x.Tlen = 4095, -7777, -7777, -7777, -7777
+	}
+	switch x := v.(type) {
+	case *fasta.Fasta:
+		if x != nil {
+			fill(x.Name)
+			fill(x.Sequence)
+		}
+	case *fastq.Fastq:
+		if x != nil {
+			fill(x.Name)
+			fill(x.Sequence)
+			fill(x.Quals)
+		}
+	case *sam.SAM:
+		samRec(x)
+	case sam.SAMOrHeader:
+		samRec(x.S)
+		if x.H != nil {
+			*x.H = "#scribbled"
+		}
+	case *bed.BED:
+		if x != nil {
+			fillInts(x.BlockSizes)
+			fillInts(x.BlockStarts)
+			x.Chrom, x.Name, x.Strand = "#", "#", "#"
+			x.N, x.ChromStart, x.ChromEnd, x.Score, x.BlockCount = -7777, -7777, -7777, -7777, -7777
+		}
+	case *newick.Node:
+		if x == nil {
+			return
+		}
+		stack := []*newick.Node{x}
+		for len(stack) > 0 {
+			n := stack[len(stack)-1]
+			stack = stack[:len(stack)-1]
+			for _, c := range n.Children {
+				if c != nil {
+					stack = append(stack, c)
+				}
+			}
+			ch := n.Children[:cap(n.Children)]
+			for i := range ch {
+				ch[i] = nil
+			}
+			n.Name, n.Distance, n.Children = "#scribbled", -7777, nil
+		}
+	}
 }
